@@ -125,10 +125,14 @@ fn required_ambiguity_resolution(game: &Game, mv: Move) -> AmbiguityResolution {
         .iter()
         .any(|m| m.src().rank() == mv.src().rank());
 
+    if potentially_ambiguous_moves.is_empty() {
+        return AmbiguityResolution::None;
+    }
+
     match (ambiguity_by_file, ambiguity_by_rank) {
-        (false, false) => AmbiguityResolution::None,
+        // No other candidate shares our file, so the file alone identifies the piece
+        (false, _) => AmbiguityResolution::File,
         (true, false) => AmbiguityResolution::Rank,
-        (false, true) => AmbiguityResolution::File,
         (true, true) => AmbiguityResolution::Exact,
     }
 }
